@@ -197,7 +197,7 @@ def answer(line, timeout=4):
 # more ops live in their own modules; importing them registers them
 def _load_ext():
     import importlib
-    for m in ("ops_opts", "ops_db", "ops_wire", "ops_http", "ops_misc", "ops_hist", "ops_imp"):
+    for m in ("ops_opts", "ops_db", "ops_wire", "ops_http", "ops_misc", "ops_hist", "ops_frame", "ops_imp"):
         try:
             importlib.import_module("harness." + m)
         except ModuleNotFoundError as e:
